@@ -52,7 +52,7 @@ META["C01"] = dict(
     technique="Lean 4 invariant proof over hand model + trace-level differential correspondence",
 )
 META["C08"] = dict(
-    text="Lean 4 theorems: FanoutMany keeps exactly the entries that did not answer Err and hands the item to every one of them (c08_fanout_*), a subscriber that never fails survives any poll (c08_healthy_subscriber_survives), survivors keep the exactly-once-in-order invariant whatever the others do (c08_survivors_unharmed); fault scripts at every (child, operation, position) are replayed on the real FanoutMany/Topic and compared with the model",
+    text="Lean 4 theorems: FanoutMany keeps exactly the entries that did not answer Err and hands the item to every one of them (c08_fanout_*), a subscriber that never fails survives any poll (c08_healthy_subscriber_survives), survivors keep the exactly-once-in-order invariant whatever the others do (c08_survivors_unharmed); fault scripts at every (child, operation, position) are replayed on the real FanoutMany/Topic and compared with the model; request/reply router: c08_replier_dropped_only_for_cause and c08_requestor_dropped_only_when_its_own_sink_failed - over every history every drop in the child-call trace has a cause of that socket's own (invariants Justified / JustifiedC through the blocks A..G), the same statement is monitored on the real router's trace",
     design_ref="DESIGN.md section 6, C08",
     note="pub/sub half; request/reply half in the second part of Props/C08.lean when present",
     technique="Lean 4 proof over hand model + fault-script differential correspondence",
@@ -77,20 +77,20 @@ META["C02"] = dict(
     technique="Lean 4 invariant proofs over hand model + trace-level differential correspondence",
 )
 META["C10"] = dict(
-    text="Lean 4 theorems: requests go only to the replier bound at that moment, a replier registering while one is bound is queued for rejection and the bound one stays (c10_late_replier_is_rejected), for every history every rejected replier was handed exactly the replier-already-bound error or nothing (c10_rejected_told_exactly_that), the rejection path touches nothing of the bound replier or the requestors (c10_bound_replier_unaffected), the next replier binds once the slot is free (c10_rebind); racing late repliers with ready / pending / failing sinks replayed on the real router",
+    text="Lean 4 theorems: requests go only to the replier bound at that moment, a replier registering while one is bound is queued for rejection and the bound one stays (c10_late_replier_is_rejected), for every history every rejected replier was handed exactly the replier-already-bound error or nothing (c10_rejected_told_exactly_that), the rejection path touches nothing of the bound replier or the requestors (c10_bound_replier_unaffected), the next replier binds once the slot is free (c10_rebind); racing late repliers with ready / pending / failing sinks replayed on the real router; c10_replier_let_go_only_for_cause: over every history the bound replier is let go of only when its own stream ended or its own sink failed",
     design_ref="DESIGN.md section 6, C10",
     note="as C02",
     technique="Lean 4 proof over hand model + differential correspondence",
 )
 META["C11"] = dict(
-    text="Lean 4 theorems that no frame sequence makes a router panic, spin or stop: poll of both routers returns for every state and input (c11_reqrep_total, c11_pubsub_total), frames of unexpected kinds from requestors are skipped and from repliers discarded without touching anybody (c11_unexpected_*), a request refused by the replier's sink (over the limit once tagged) is dropped and the replier stays bound; registration: c11_ok_means_served (Ok => socket enqueued to a router of that role's pattern), c11_refusal_has_code, c11_registry_isolation, c11_non_registration_closed; the real routers are fed such frames in a guarded child and compared with the model",
+    text="Lean 4 theorems that no frame sequence makes a router panic, spin or stop: poll of both routers returns for every state and input (c11_reqrep_total, c11_pubsub_total), frames of unexpected kinds from requestors are skipped and from repliers discarded without touching anybody (c11_unexpected_*), a request refused by the replier's sink (over the limit once tagged) is dropped and the replier stays bound; registration: c11_ok_means_served (Ok => socket enqueued to a router of that role's pattern), c11_refusal_has_code, c11_registry_isolation, c11_non_registration_closed; the real routers are fed such frames in a guarded child and compared with the model; c11_adopted_socket_not_abandoned: an adopted socket is let go of only for a cause of its own",
     design_ref="DESIGN.md section 6, C11",
     note="router half and registration half (handle_stream decision logic, Server/Registry.lean) proved on hand models; tied to the code by the reqrep/pubsub trace suites and by raw-peer end-to-end cases",
     technique="Lean 4 totality / termination proofs + guarded-child differential correspondence",
 )
 
 META["C03"] = dict(
-    text="Lean 4 theorem c03_fidelity_partial over an executable model of the publisher (batching by size and by an arbitrary clock oracle, send = poll_ready/start_send/poll_flush, finish) and the subscriber (unbatching, pop order): for every lossless codec, every self-inverting compressor or none, batching off or on with any size, any frame limit, every item list and every clock: whenever every send() and finish() returned Ok the subscriber yields exactly the items sent, in order, and finish() leaves nothing in the batch or the framed writer; the framed writer's size check is part of the model (a refused frame is an error result), which is what exposes the known finding c03_refused_batch_loses_accepted_members (a batch that outgrows the frame limit is drained before it is refused); c03_subscriber_state_machine_refines_outputs (poll_next driven call after call yields the list-level specification) and c03_end_to_end_through_the_router_partial (publisher model, router model of C01 and subscriber model composed); tied to the code by running real clients through a real server over loopback QUIC for a grid of configurations and comparing what the subscriber yields; c03_fidelity_any_driving_partial: the same for any mix of send / feed (accepted, not flushed) / flush / bare poll_ready before finish()",
+    text="Lean 4 theorem c03_fidelity_partial over an executable model of the publisher (batching by size and by an arbitrary clock oracle, send = poll_ready/start_send/poll_flush, finish) and the subscriber (unbatching, pop order): for every lossless codec, every self-inverting compressor or none, batching off or on with any size, any frame limit, every item list and every clock: whenever every send() and finish() returned Ok the subscriber yields exactly the items sent, in order, and finish() leaves nothing in the batch or the framed writer; the framed writer's size check is part of the model (a refused frame is an error result), which is what exposes the known finding c03_refused_batch_loses_accepted_members (a batch that outgrows the frame limit is drained before it is refused); c03_subscriber_state_machine_refines_outputs (poll_next driven call after call yields the list-level specification) and c03_end_to_end_through_the_router_partial (publisher model, router model of C01 and subscriber model composed); tied to the code by running real clients through a real server over loopback QUIC for a grid of configurations and comparing what the subscriber yields; c03_fidelity_any_driving_partial: the same for any mix of send / feed (accepted, not flushed) / flush / bare poll_ready before finish(); c03_duplicate_delivers_only_its_own_partial: Publisher::duplicate() is built from the configuration, whatever the original has collected stays with it (each accepted item is delivered once)",
     design_ref="DESIGN.md section 6, C03",
     note="_partial: the compression libraries' round trip is a hypothesis (tested in C14); transport and server forwarding are trusted/proved elsewhere (C01); one known finding (known_findings.json: C03-oversize-batch-drops-accepted-items) is reported as KNOWN-FINDING on every run",
     technique="Lean 4 invariant proof over hand model + end-to-end differential correspondence over loopback QUIC",
@@ -118,7 +118,7 @@ META["C15"] = dict(
 )
 
 META["C12"] = dict(
-    text="Lean 4 theorems over the retry logic with its budget scope read from the source: c12_budget_per_outage (the outcome of every outage is that of a fresh budget), c12_survives_any_number_of_outages, c12_exhaustion_iff (too-many-retries exactly when all attempts of one outage fail), c12_fatal_immediate, c12_recovers, obligations budgets_per_outage / recoverable_classification on the regenerated facts; plus the pub/sub wrapper as a poll-level state machine with wake accounting (c12_no_lost_wakeup, c12_close_no_lost_wakeup, c12_exhaustion_is_reported under a wake-driven executor for every budget), the wrapper's wake sites regenerated from the source; reconnection itself is exercised end to end by cutting real QUIC connections more often than the budget and checking traffic after each recovery for all four stream kinds; the connection shared by all streams of a Client (Client/SharedConn over the regenerated fact that reconnect() redials only a closed connection): c12_sibling_recovery_does_not_disturb, c12_all_siblings_recover",
+    text="Lean 4 theorems over the retry logic with its budget scope read from the source: c12_budget_per_outage (the outcome of every outage is that of a fresh budget), c12_survives_any_number_of_outages, c12_exhaustion_iff (too-many-retries exactly when all attempts of one outage fail), c12_fatal_immediate, c12_recovers, obligations budgets_per_outage / recoverable_classification on the regenerated facts; plus the pub/sub wrapper as a poll-level state machine with wake accounting (c12_no_lost_wakeup, c12_close_no_lost_wakeup, c12_exhaustion_is_reported under a wake-driven executor for every budget), the wrapper's wake sites regenerated from the source; reconnection itself is exercised end to end by cutting real QUIC connections more often than the budget and checking traffic after each recovery for all four stream kinds; the connection shared by all streams of a Client (Client/SharedConn over the regenerated fact that reconnect() redials only a closed connection): c12_sibling_recovery_does_not_disturb, c12_all_siblings_recover; for all backoff configurations: c12_every_backoff_configuration_supplies_the_whole_budget (every schedule has exactly max_attempts items), c12_exhaustion_after_the_whole_schedule; registration_loss_is_an_ordinary_loss (regenerated: handle_reply hands a read error on unchanged)",
     design_ref="DESIGN.md section 6, C12",
     note="proof of the retry logic; reconnecting through quinn/TLS/the server is exercised, not proved",
     technique="Lean 4 proof over retry model with source-extracted budget scope + end-to-end fault injection",
